@@ -679,4 +679,76 @@ theorem layoutModel_eq_spec (fl : List Char) (w : WidthArg) (p : PrecArg) (conv 
 
 end
 
+/-! ### gmp_vasprintf -/
+
+/-- the ASSERT of GMP_ASPRINTF_T_NEED / __gmp_asprintf_final: room for the terminator, no store outside -/
+def AsInv (d : AsState) : Prop := d.buf.length + 1 ≤ d.alloc ∧ d.ok = true
+
+theorem asNeed_spec (d : AsState) (n : Nat) (h : AsInv d) :
+    (asNeed d n).buf = d.buf ∧ (asNeed d n).ok = d.ok ∧ d.buf.length + n + 1 ≤ (asNeed d n).alloc := by
+  unfold asNeed
+  obtain ⟨h1, _⟩ := h
+  simp only
+  split
+  · refine ⟨rfl, rfl, ?_⟩; simp only; omega
+  · refine ⟨rfl, rfl, ?_⟩; omega
+
+theorem asStore_spec (d : AsState) (s : List Char) (h : AsInv d) :
+    AsInv (asStore d s) ∧ (asStore d s).buf = d.buf ++ s := by
+  obtain ⟨n1, n2, n3⟩ := asNeed_spec d s.length h
+  unfold asStore AsInv
+  simp only [n1, n2, List.length_append]
+  refine ⟨⟨by omega, ?_⟩, trivial⟩
+  simp [h.2]; omega
+
+theorem asFormat_fit (d : AsState) (out : List Char) (fuel space : Nat) (h : AsInv d) (hs : out.length < space) :
+    ∃ d', asFormat d out (fuel + 1) space = some d' ∧ AsInv d' ∧ d'.buf = d.buf ++ out := by
+  obtain ⟨n1, n2, n3⟩ := asNeed_spec d space h
+  unfold asFormat
+  simp only [n1]
+  have hlt : out.length < (asNeed d space).alloc - d.buf.length - 1 := by omega
+  simp only [hlt, if_true]
+  refine ⟨_, rfl, ⟨?_, ?_⟩, rfl⟩
+  · simp only [List.length_append]; omega
+  · simp [n2, h.2]; omega
+
+theorem asFormat_spec (d : AsState) (out : List Char) (space : Nat) (h : AsInv d) :
+    ∃ d', asFormat d out 3 space = some d' ∧ AsInv d' ∧ d'.buf = d.buf ++ out := by
+  obtain ⟨n1, n2, n3⟩ := asNeed_spec d space h
+  have hinv1 : AsInv (asNeed d space) := ⟨by rw [n1]; omega, by rw [n2]; exact h.2⟩
+  unfold asFormat
+  simp only [n1]
+  by_cases hlt : out.length < (asNeed d space).alloc - d.buf.length - 1
+  · simp only [hlt, if_true]
+    refine ⟨_, rfl, ⟨?_, ?_⟩, rfl⟩
+    · simp only [List.length_append]; omega
+    · simp [n2, h.2]; omega
+  · simp only [hlt, if_false]
+    by_cases heq : out.length = (asNeed d space).alloc - d.buf.length - 1
+    · simp only [heq, if_true]
+      have := asFormat_fit (asNeed d space) out 1 (((asNeed d space).alloc - d.buf.length) * 2) hinv1 (by omega)
+      rw [n1] at this
+      exact this
+    · simp only [heq, if_false]
+      have := asFormat_fit (asNeed d space) out 1 (out.length + 2) hinv1 (by omega)
+      rw [n1] at this
+      exact this
+
+theorem asCalls_spec (cs : List Call) : ∀ d, AsInv d →
+    ∃ d', asCalls d cs = some d' ∧ AsInv d' ∧ d'.buf = d.buf ++ callsBytes cs := by
+  induction cs with
+  | nil => intro d h; exact ⟨d, rfl, h, by simp⟩
+  | cons c cs ih =>
+    intro d h
+    have hc : ∃ d1, asCall d c = some d1 ∧ AsInv d1 ∧ d1.buf = d.buf ++ c.bytes := by
+      cases c with
+      | format o => exact asFormat_spec d o 256 h
+      | memory s => exact ⟨_, rfl, asStore_spec d _ h⟩
+      | reps ch n => exact ⟨_, rfl, asStore_spec d _ h⟩
+    obtain ⟨d1, e1, i1, b1⟩ := hc
+    obtain ⟨d2, e2, i2, b2⟩ := ih d1 i1
+    refine ⟨d2, ?_, i2, ?_⟩
+    · simp only [asCalls, e1, e2]
+    · rw [b2, b1]; simp
+
 end Mpir.Printf
